@@ -415,12 +415,22 @@ pub fn run(tier: &str, seed: u64) -> i32 {
     ev.nontrivial = c.1;
     ev.classes = c.2;
     ev.samples = c.3;
-    for (sig, (n, example)) in known_hits.into_inner() {
-        let what = known.open("C14", &sig).and_then(|e| e["what"].as_str().map(|s| s.to_string())).unwrap_or_default();
-        let _ = example;
-        println!("KNOWN-FINDING: property=C14 {} [{} generated inputs of this class, e.g. `{}`]", what, n, canonical_example(&sig));
-        ev.known_findings.push(sig);
-        ev.excluded_known += n;
+    // every open finding of this property: its canonical input is re-checked on each run; while it
+    // still fails the finding is reported (with the number of generated inputs of its class)
+    let hits = known_hits.into_inner();
+    for e in known.entries.iter().filter(|e| e["property"] == "C14" && e["status"] == "open") {
+        let sig = e["signature"].as_str().unwrap_or("").to_string();
+        let canon = canonical_example(&sig);
+        let still_fails = match canonical_struct(&sig) {
+            Some(p) => check_one(&p).is_err(),
+            None => true,
+        };
+        let n = hits.get(&sig).map(|h| h.0).unwrap_or(0);
+        if still_fails {
+            println!("KNOWN-FINDING: property=C14 {} [canonical input `{}` still fails; {} generated inputs of this class were set aside]", e["what"].as_str().unwrap_or(""), canon, n);
+            ev.known_findings.push(sig);
+            ev.excluded_known += n;
+        }
     }
     let mut code = 0;
     if let Some((p, d)) = violation {
@@ -457,6 +467,17 @@ pub fn known_signature_of(p: &SProg, _detail: &str) -> Option<String> {
         }
     }
     None
+}
+
+/// the canonical input of an open finding as a structure
+pub fn canonical_struct(sig: &str) -> Option<SProg> {
+    let act = |op: usize, operand: &str| SAct { op, deferred: false, wrap: false, operands: vec![operand.to_string()], space_before: true, space_after: true };
+    let br = |let_name: Option<(String, bool)>, init: &str, acts: Vec<SAct>| SBranch { let_name, init: init.to_string(), acts, sep: 0 };
+    match sig {
+        "and_then-followed-by-bracket-leading-operand" => Some(SProg { options: vec![], branches: vec![br(None, "x", vec![act(1, "[f, g][0]")])], handler: None, trailing_comma: false }),
+        "let-before-top-level-lazy-boolean" => Some(SProg { options: vec![], branches: vec![br(Some(("a0".into(), false)), "a && b || c", vec![act(0, "f")])], handler: None, trailing_comma: false }),
+        _ => None,
+    }
 }
 
 pub fn canonical_example(sig: &str) -> &'static str {
